@@ -1,6 +1,7 @@
 package props
 
 import (
+	"go/token"
 	"go/types"
 	"golang.org/x/tools/go/ssa"
 	"sort"
@@ -118,6 +119,208 @@ func ruleLimitAccept(e *Env, ruleName string, pkgs ...string) {
 				}
 			}
 		})
+	}
+}
+
+// ruleNoMatchRejects: "everything else is rejected": in each of the given functions, every call that matches a regexp
+// of the module against the input decides a branch, and the branch taken when the match fails leads only to error
+// returns (the decision tables of the acceptance rules are extracted under the premise "the pattern matched" and
+// never look at that side). Recognised tests: len(m) == 0 / != 0, m == nil / != nil for the sub-match forms, the
+// boolean result (or its negation) for Match / MatchString.
+func ruleNoMatchRejects(e *Env, rule string, fns ...*ssa.Function) {
+	for _, fn := range fns {
+		if fn == nil {
+			continue
+		}
+		site := flow.FnName(fn)
+		n := 0
+		for _, b := range fn.Blocks {
+			for _, in := range b.Instrs {
+				call, ok := in.(*ssa.Call)
+				if !ok {
+					continue
+				}
+				name := calleeName(&call.Call)
+				isSub := name == "(*regexp.Regexp).FindSubmatch" || name == "(*regexp.Regexp).FindStringSubmatch" || name == "(*regexp.Regexp).FindSubmatchIndex" || name == "(*regexp.Regexp).FindStringSubmatchIndex"
+				isBool := name == "(*regexp.Regexp).Match" || name == "(*regexp.Regexp).MatchString"
+				if !isSub && !isBool {
+					continue
+				}
+				n++
+				// the regexp is the package's pattern (the one whose language the acceptance rules decide), applied to the
+				// input itself (for the sub-match forms: to the input or a tail of it, e.g. behind a tag prefix)
+				if pat := e.V(fn.Pkg.Pkg.Name(), "pattern"); pat != nil {
+					recvOK := false
+					if ld, ok := call.Call.Args[0].(*ssa.UnOp); ok && ld.Op == token.MUL && ld.X == ssa.Value(pat) {
+						recvOK = true
+					}
+					subj := call.Call.Args[1]
+					subjOK := flow.RootParam(subj) != nil && (!flow.HasSliceOnPath(subj) || fn.Pkg.Pkg.Name() == "sem")
+					switch {
+					case !recvOK:
+						e.S.Bad(rule, site, "pattern", "the input is matched against something other than "+fn.Pkg.Pkg.Name()+"."+pat.Name()+", the pattern whose language is decided", e.posOf(call), "")
+					case !subjOK:
+						e.S.Bad(rule, site, "pattern", "the pattern is applied to something other than the whole input (a trimmed, cut or rebuilt text)", e.posOf(call), "")
+					default:
+						e.S.Ok(rule, site, "pattern", "matches "+fn.Pkg.Pkg.Name()+"."+pat.Name()+" against the input", e.posOf(call))
+					}
+				}
+				// the edge taken on "no match"
+				var failEdge *ssa.BasicBlock
+				var test ssa.Instruction
+				var visit func(v ssa.Value, negated bool, depth int)
+				visit = func(v ssa.Value, negated bool, depth int) {
+					if depth > 3 || v.Referrers() == nil {
+						return
+					}
+					for _, r := range *v.Referrers() {
+						switch x := r.(type) {
+						case *ssa.If: // v is a boolean: true = match (unless negated)
+							if x.Cond == v {
+								test = x
+								if negated {
+									failEdge = x.Block().Succs[0]
+								} else {
+									failEdge = x.Block().Succs[1]
+								}
+							}
+						case *ssa.UnOp:
+							if x.Op == token.NOT {
+								visit(x, !negated, depth+1)
+							}
+						case *ssa.Call: // len(m)
+							if bi, ok := x.Call.Value.(*ssa.Builtin); ok && bi.Name() == "len" && isSub {
+								for _, rr := range *x.Referrers() {
+									if bo, ok := rr.(*ssa.BinOp); ok {
+										if k, isC := flow.ConstInt(bo.Y); isC && k == 0 && (bo.Op == token.EQL || bo.Op == token.NEQ || bo.Op == token.GTR) {
+											// len == 0: true = no match
+											visit(bo, bo.Op != token.EQL, depth+1)
+											// visit treats "true = match unless negated": for EQL the true edge is the failing one
+											_ = bo
+										}
+									}
+								}
+							}
+						case *ssa.BinOp: // m == nil / m != nil
+							if isSub && (x.Op == token.EQL || x.Op == token.NEQ) && (flow.IsNilConst(x.Y) || flow.IsNilConst(x.X)) {
+								visit(x, x.Op != token.EQL, depth+1)
+							}
+						}
+					}
+				}
+				if isBool {
+					visit(call, false, 0)
+				} else {
+					// for the sub-match forms the comparison results are "true = NO match" when written with ==: the
+					// visit above is entered with negated = (op != EQL), and an If on such a value has its TRUE edge as
+					// the failing edge when not negated — so flip the reading here
+					visitSub := func() {
+						var inner func(v ssa.Value, noMatchOnTrue bool, depth int)
+						inner = func(v ssa.Value, noMatchOnTrue bool, depth int) {
+							if depth > 3 || v.Referrers() == nil {
+								return
+							}
+							for _, r := range *v.Referrers() {
+								switch x := r.(type) {
+								case *ssa.If:
+									if x.Cond == v {
+										test = x
+										if noMatchOnTrue {
+											failEdge = x.Block().Succs[0]
+										} else {
+											failEdge = x.Block().Succs[1]
+										}
+									}
+								case *ssa.UnOp:
+									if x.Op == token.NOT {
+										inner(x, !noMatchOnTrue, depth+1)
+									}
+								}
+							}
+						}
+						for _, r := range *call.Referrers() {
+							switch x := r.(type) {
+							case *ssa.Call:
+								if bi, ok := x.Call.Value.(*ssa.Builtin); ok && bi.Name() == "len" {
+									for _, rr := range *x.Referrers() {
+										if bo, ok := rr.(*ssa.BinOp); ok {
+											if k, isC := flow.ConstInt(bo.Y); isC && k == 0 {
+												switch bo.Op {
+												case token.EQL:
+													inner(bo, true, 0)
+												case token.NEQ, token.GTR:
+													inner(bo, false, 0)
+												}
+											}
+										}
+									}
+								}
+							case *ssa.BinOp:
+								if flow.IsNilConst(x.Y) || flow.IsNilConst(x.X) {
+									switch x.Op {
+									case token.EQL:
+										inner(x, true, 0)
+									case token.NEQ:
+										inner(x, false, 0)
+									}
+								}
+							}
+						}
+					}
+					failEdge, test = nil, nil
+					visitSub()
+				}
+				// … and nothing succeeds without it: every nil-error return lies behind the successful edge of the test,
+				// or behind an emptiness test of the input (empty text may be a value of its own: roman zero)
+				if failEdge != nil {
+					iff := test.(*ssa.If)
+					okEdge := iff.Block().Succs[0]
+					if okEdge == failEdge {
+						okEdge = iff.Block().Succs[1]
+					}
+					for _, r := range flow.Returns(fn) {
+						rv := flow.ReturnValues(r)
+						if len(rv) == 0 || !flow.IsNilConst(rv[len(rv)-1]) {
+							continue
+						}
+						if okEdge == r.Block() || okEdge.Dominates(r.Block()) {
+							continue
+						}
+						emptyGuard := false
+						for _, cc := range controlConds(r.Block()) {
+							switch x := cc.cond.(type) {
+							case *ssa.BinOp: // len(input) == 0 (true edge) / != 0, > 0 (false edge)
+								if l, ok := flow.IsLenOf(x.X); ok && flow.RootParam(l) != nil {
+									if k, isC := flow.ConstInt(x.Y); isC && k == 0 && (x.Op == token.EQL && cc.pos || (x.Op == token.NEQ || x.Op == token.GTR) && !cc.pos) {
+										emptyGuard = true
+									}
+								}
+							case *ssa.Extract: // the "empty" verdict of the module's guard helper
+								if gc, ok := x.Tuple.(*ssa.Call); ok && cc.pos && types.Identical(x.Type(), types.Typ[types.Bool]) {
+									if g := e.C.StaticCallee(&gc.Call); g != nil && flow.InRepo(g) {
+										emptyGuard = true
+									}
+								}
+							}
+						}
+						if !emptyGuard {
+							e.S.Bad(rule, site, "success only after a match", "a success return ("+e.posOf(r)+") is reached without the pattern having matched and without the input being empty: some text is accepted unseen", e.posOf(r), "")
+						}
+					}
+				}
+				switch {
+				case failEdge == nil:
+					e.S.Unk(rule, site, "no match", "the result of "+name+" is not tested in a recognised form (len(m) == 0, m == nil, the boolean result)", e.posOf(call))
+				case !flow.LeadsOnlyToErrors(failEdge):
+					e.S.Bad(rule, site, "no match", "when the pattern does not match, some path does not end in an error: a text outside the grammar can be accepted", e.posOf(test), "")
+				default:
+					e.S.Ok(rule, site, "no match", "a failed match leads only to error returns", e.posOf(test))
+				}
+			}
+		}
+		if n == 0 {
+			e.S.Unk(rule, site, "no match", "no regexp match on the input found", e.Pos(fn))
+		}
 	}
 }
 
